@@ -388,7 +388,7 @@ func fmtCorpus() {
 	}
 	all = append(all, 99999.5, 999999.5, 999999.9999999999, 1000000, 0.0001, 0.00009999999999999999, 0.000099999999999999991,
 		1e21, 1e22, 1e23, 8.41e21, 5e-324, 1e-323, 2.2250738585072014e-308, 9007199254740992, 9007199254740993, 0.5, 0.25, 1.0/3, 2.0/3,
-		4.35, 0.285, 1.005, 1e15 + 0.5, 123456.7, 1234567.8, 12345678.9)
+		4.35, 0.285, 1.005, 1e15+0.5, 123456.7, 1234567.8, 12345678.9)
 	for i := 0; i < len(all); i += 40 {
 		j := i + 40
 		if j > len(all) {
